@@ -20,6 +20,14 @@ from sim import core          # noqa: E402
 PROP = 'C18'
 
 
+def _exec_coarse(args):
+    from sim import cachesim
+    root, index, thorough = args
+    res = cachesim.execute(cachesim.make_spec(root, index, thorough, coarse_clock=True))
+    return {'harness_error': res['harness_error'], 'gran': None,
+            'signatures': sorted({v['signature'] for v in res['violations']})}
+
+
 def _exec_index(args):
     from sim import cachesim
     root, index, thorough = args
@@ -447,6 +455,19 @@ def main():
         print('HARNESS-FAILURE no cache hit in the whole batch: the workload does not exercise the cache')
         return core.EXIT_HARNESS
 
+    # 3b. observation family: coarse time stamps (DESIGN.md §3.7) -- counted, never a verdict
+    coarse = None
+    try:
+        cres = core.pmap(_exec_coarse, [(root, i, thorough) for i in range(3000 if thorough else 400)], jobs=jobs,
+                         chunk=16, wall_per_chunk=180, budget_s=120 if thorough else 20)
+        sigs = collections.Counter(s for r in cres for s in r['signatures'])
+        coarse = {'runs': len(cres), 'runs_with_a_stale_or_other_oracle_hit': sum(1 for r in cres if r['signatures']),
+                  'by_signature': dict(sigs),
+                  'note': 'clock granularity 4 ms / 1 s / 2 s: a source rewritten twice (or a scanner installation changed twice) within '
+                          'one tick keeps its mtime, so no mtime comparison can see the second change; an observation, never a verdict'}
+    except core.WorkerDied:
+        coarse = {'runs': 0, 'note': 'observation family did not complete'}
+
     # 4. the E2 cache-history slice ("using the cache never changes the emitted GIR")
     slice_info = None
     if not a.no_slice:
@@ -463,6 +484,7 @@ def main():
 
     wall = time.monotonic() - t0
     cov = build_coverage(results, agg, sim_wall, det_info, conf, known_hits, fixed, reported, slice_info, jobs)
+    cov['observation_coarse_clock'] = coarse
     core.write_evidence(PROP, tier, root, cov, ASSUMPTIONS, wall, len(reported))
     print('[C18] runs=%d distinct_nontrivial=%d faults=%d violations=%d known=%d wall=%.1fs -> exit %d' % (
         len(results), cov['distinct_nontrivial'], sum(agg['faults'].values()), len(reported), len(known_hits),
